@@ -519,7 +519,7 @@ def rule_kind_guard(chk: Check):
     import types
     test = guards[0].test
     folded = constfold.fold_tokenize()
-    prefixes = sorted(folded.ns["_all_string_prefixes"]())  # type: ignore[attr-defined]
+    prefixes = sorted(constfold.string_prefix_set())
     listname = [a.arg for a in fn.args.args][-1]
     bad = []
     for p in prefixes:
